@@ -16,7 +16,8 @@ RelevantTo(st) ==
       [] st = <<"classobj">> -> {"remove_object_base"}
       [] st \in Returns -> {"remove_explicit_return_none"}
       [] st \in {<<"raise0">>, <<"raiseargs">>, <<"raisefrom">>, <<"raiseuser">>} -> {"remove_builtin_exception_brackets"}
-      [] st = <<"assert">> -> {"remove_asserts"}
+      [] st \in {<<"assert">>, <<"assert_bind">>} -> {"remove_asserts"}
+      [] st = <<"dbg_bind">> -> {"remove_debug"}
       [] st \in DebugTruthy \cup DebugOther \cup {<<"dbg_else">>, <<"dbg_elif">>} -> {"remove_debug"}
       [] OTHER -> {}
 Relevant(blk) == UNION { RelevantTo(blk[k]) : k \in DOMAIN blk }
@@ -34,7 +35,11 @@ Next == UNCHANGED vars
 Spec == Init /\ [][Next]_vars
 
 \* M |= S
-MInAllowed == MOut(opts, ctx, env, blk) \in Allowed(opts, ctx, env, blk)
+MInAllowed == KF_D27(opts, ctx, blk) \/ MOut(opts, ctx, env, blk) \in Allowed(opts, ctx, env, blk)
+\* S is consistent with the interpreter here: in a function a name that is looked up keeps a binding (checked against CPython by the runs)
+BinderKept == \A b \in Allowed(opts, ctx, env, blk) :
+                 (InFunction(ctx) /\ (\E k \in DOMAIN blk : blk[k] \in Binders) /\ (\E k \in DOMAIN blk : blk[k] \in ZqUsers))
+                 => \E k \in DOMAIN b : b[k] \in Binders
 \* properties of S itself
 OffMeansUntouched == opts = {} => Allowed(opts, ctx, env, blk) = {blk}
 NonEmpty == \A b \in Allowed(opts, ctx, env, blk) : b # <<>> \/ IsModule(ctx)
